@@ -298,3 +298,37 @@ def wire_field_replaced(ctx, rule: str, files) -> int:
             ctx.chk.bad(rule, f"{rp}::{f.name} `{norm(n)[:90]}`", f"`{nm}` was read from the input bytes and is replaced here by a value that does not depend on what was read (no test on the read value guards it)",
                         "a field read from the wire is used, checked or derived from - not silently replaced", f"{rp}:{n.lineno}")
     return cnt
+
+
+def index_guard_off_by_one(ctx, rule: str, files) -> int:
+    """index-guard: a raising guard `i > len(S)` that is followed by the element access `S[i]` lets `i == len(S)` through: the access then
+    raises a bare IndexError instead of the error the guard was written to raise.  (One hit in the package when the rule was written:
+    SRKTableArray.compute_srk_hash, repaired.)  Embedded positive example checked on every run."""
+    def hits(tree):
+        for f in ast.walk(tree):
+            if not isinstance(f, ast.FunctionDef):
+                continue
+            for st in ast.walk(f):
+                if isinstance(st, ast.If) and isinstance(st.test, ast.Compare) and len(st.test.ops) == 1 and isinstance(st.test.ops[0], ast.Gt) and A.always_raises(st.body):
+                    r = st.test.comparators[0]
+                    if isinstance(r, ast.Call) and norm(r.func) == "len" and len(r.args) == 1:
+                        seq, idx = norm(r.args[0]), norm(st.test.left)
+                        for s2 in ast.walk(f):
+                            if isinstance(s2, ast.Subscript) and not isinstance(s2.slice, ast.Slice) and norm(s2.value) == seq and norm(s2.slice) == idx and getattr(s2, "lineno", 0) > st.lineno:
+                                yield f, st, s2
+                                break
+    pos = ast.parse("def f(self, i):\n    if i > len(self.t):\n        raise ValueError('range')\n    return self.t[i].x\n")
+    neg = ast.parse("def f(self, i):\n    if i >= len(self.t):\n        raise ValueError('range')\n    return self.t[i].x\n")
+    if len(list(hits(pos))) != 1 or list(hits(neg)):
+        raise AnalysisError("index-guard: embedded examples no longer behave")
+    n = 0
+    for rp in files:
+        m = ctx.prog.modules.get(rp) or next((x for x in ctx.prog.modules.values() if x.relpath == rp), None)
+        if m is None:
+            continue
+        for f in ast.walk(m.tree):
+            if isinstance(f, ast.FunctionDef):
+                n += sum(1 for st in ast.walk(f) if isinstance(st, ast.If) and isinstance(st.test, ast.Compare) and any(isinstance(c_, ast.Call) and norm(c_.func) == "len" for c_ in st.test.comparators) and A.always_raises(st.body))
+        for f, st, s2 in hits(m.tree):
+            ctx.chk.bad(rule, f"{rp}::{f.name} `{norm(st.test)}`", f"the guard lets `{norm(st.test.left)} == len(...)` through and `{norm(s2)}` then raises IndexError", "`>=` (an index equal to the length is out of range)", f"{rp}:{st.lineno}")
+    return n
